@@ -691,10 +691,10 @@ def expand_new_comprehensions(fnode, ref: dict) -> int:
             ret_form = False
             if comp is None and isinstance(st, ast.Return) and isinstance(st.value, (ast.ListComp, ast.DictComp, ast.SetComp)):
                 # `return [..comprehension..]`: accumulate into the local the reference had for it (first reference local that is gone)
-                have = set(local_names(fnode))
+                have = set(local_names(fnode)) | {x.id for x in ast.walk(fnode) if isinstance(x, ast.Name)} | set(_params(fnode))
                 gone = [x for x in ref.get("locals", []) if x not in have and x != "_"]
                 comp, tgt, mode, ret_form = st.value, (gone[0] if gone else "_pdv_acc"), "new", True
-            if comp is None or _canon_comp(comp) in known or any(isinstance(x, (ast.ListComp, ast.SetComp, ast.DictComp, ast.GeneratorExp)) and x is not comp for x in ast.walk(comp)):
+            if comp is None or _canon_comp(comp) in known or any(isinstance(x, (ast.ListComp, ast.SetComp, ast.DictComp, ast.GeneratorExp)) for g_ in comp.generators for x in ast.walk(g_)):
                 i += 1
                 continue
             if isinstance(comp, ast.DictComp):
